@@ -748,6 +748,65 @@ def emit_refusals(r):
     return '\n'.join(L)
 
 
+# ---------------------------------------------------------------------------------------------------- Caches
+# Every place of the package that remembers a computed value: caching decorators (functools.cached_property, lru_cache,
+# cache, cached_custom_property), descriptor classes derived from cached_custom_property, and attributes whose name says
+# cache / memo.  The models treat every property as a function of the current content, except the cached VIEWS the Views
+# model carries explicitly; the obligations (Obligations/Caches*.lean) pin the inventory per area.
+
+def extract_caches(repo: Path):
+    pkg = repo / 'autobean_refactor'
+    rows = []
+    for p in sorted(pkg.rglob('*.py')):
+        rel = p.relative_to(pkg)
+        if p.name.endswith('_test.py') or rel.parts[0] in ('modelgen', 'meta_models', 'tests') or 'conftest' in p.name:
+            continue
+        try:
+            t = ast.parse(p.read_text())
+        except SyntaxError as e:
+            ERRORS.append(f'{rel}: {e}')
+            continue
+
+        def visit(node, prefix):
+            for ch in ast.iter_child_nodes(node):
+                if isinstance(ch, ast.ClassDef):
+                    for b in ch.bases:
+                        u = ast.unparse(b).split('[')[0]
+                        if 'cache' in u.lower():
+                            rows.append((str(rel), '.'.join(prefix + [ch.name]), 'base:' + u.split('.')[-1]))
+                    visit(ch, prefix + [ch.name])
+                elif isinstance(ch, (ast.FunctionDef, ast.AsyncFunctionDef)):
+                    for d in ch.decorator_list:
+                        u = ast.unparse(d).split('(')[0]
+                        if 'cache' in u.lower():
+                            rows.append((str(rel), '.'.join(prefix + [ch.name]), 'decorator:' + u.split('.')[-1]))
+                    visit(ch, prefix + [ch.name])
+                elif isinstance(ch, (ast.Assign, ast.AnnAssign)) and isinstance(getattr(ch, 'value', None), ast.Call):
+                    u = ast.unparse(ch.value.func).split('[')[0]
+                    if 'cache' in u.lower():
+                        tg = ch.targets[0] if isinstance(ch, ast.Assign) else ch.target
+                        rows.append((str(rel), '.'.join(prefix + [ast.unparse(tg)]), 'call:' + u.split('.')[-1]))
+        visit(t, [])
+        seen = set()
+        for n in ast.walk(t):
+            if isinstance(n, ast.Attribute) and isinstance(n.ctx, ast.Store) and any(k in n.attr.lower() for k in ('cache', 'memo')):
+                if n.attr not in seen:
+                    seen.add(n.attr)
+                    rows.append((str(rel), n.attr, 'attribute'))
+            if isinstance(n, ast.Call) and 'cache' in ast.unparse(n.func).lower() and not isinstance(n.func, ast.Attribute):
+                pass
+    return sorted(set(rows))
+
+
+def emit_caches(rows):
+    L = ['/- GENERATED by extract/extract.py from /repo/autobean_refactor/**/*.py. Do not edit. -/', '',
+         'namespace Autobean.Generated', '',
+         '/-- (file, qualified name, how) of everything in the package that remembers a computed value. -/',
+         'def cachedDefs : List (String × String × String) := ' + llist(rows, lambda t: f'({lstr(t[0])}, {lstr(t[1])}, {lstr(t[2])})'), '',
+         'end Autobean.Generated', '']
+    return '\n'.join(L)
+
+
 def main(argv):
     repo = Path(argv[1])
     out = Path(argv[2])
@@ -763,6 +822,8 @@ def main(argv):
         changed.append('Effects')
     if write_if_changed(out / 'Refusals.lean', emit_refusals(extract_refusals(repo))):
         changed.append('Refusals')
+    if write_if_changed(out / 'Caches.lean', emit_caches(extract_caches(repo))):
+        changed.append('Caches')
     errs = ['/- GENERATED by extract/extract.py. Constructs of the source the translator could not read. -/', '',
             'namespace Autobean.Generated', '', 'def extractErrors : List String := ' + llist(ERRORS, lstr), '', 'end Autobean.Generated', '']
     if write_if_changed(out / 'Errors.lean', '\n'.join(errs)):
